@@ -28,6 +28,7 @@ import (
 	"github.com/alowayed/go-univers/pkg/ecosystem/pypi"
 	"github.com/alowayed/go-univers/pkg/ecosystem/rpm"
 	"github.com/alowayed/go-univers/pkg/ecosystem/semver"
+	"github.com/alowayed/go-univers/pkg/spec/vers"
 	"github.com/alowayed/go-univers/pkg/univers"
 )
 
@@ -184,5 +185,12 @@ func SafeVString(v Ver) (s string, p *Panic) {
 func SafeRString(r Rng) (s string, p *Panic) {
 	defer catch(&p)
 	s = r.String()
+	return
+}
+
+// SafeVersContains calls vers.Contains with recover at the boundary.
+func SafeVersContains(r, v string) (ok bool, err error, p *Panic) {
+	defer catch(&p)
+	ok, err = vers.Contains(r, v)
 	return
 }
